@@ -597,3 +597,36 @@ def bytes_prefix_of(fn):
             if isinstance(b.op, ast.Add):
                 return b.left.value
     return None
+
+
+
+def rule_ge0_truthiness(program, ctx, prop, rid):
+    """since / until / limit are legal at 0: nowhere in the storage package may they be tested by truthiness"""
+    from .core import finding_at, qual_of, walk_no_nested
+
+    ctx.rule(
+        rid,
+        "the filter members that are legal at 0 (`since`, `until`, `limit`, declared ge=0) are never tested by truthiness anywhere in the storage package or the connection "
+        "handler - not in an `if`, a boolean operator, `any((…))`/`all((…))` or `not x`: a filter whose only condition is `since: 0` is a condition, and `limit: 0` is a limit",
+        floor=0,
+    )
+    GE0 = ("since", "until", "limit")
+    n = 0
+    for fn in {id(f): f for f in program.functions.values()}.values():
+        m = getattr(fn, "_module", None)
+        if m is None or not (m.name.startswith("nostr_relay.storage") or m.name == "nostr_relay.web"):
+            continue
+        for x in walk_no_nested(fn):
+            if not (isinstance(x, ast.Attribute) and x.attr in GE0 and isinstance(x.ctx, ast.Load) and isinstance(x.value, ast.Name) and x.value.id not in ("plan", "Config", "self") or
+                    (isinstance(x, ast.Attribute) and x.attr in GE0 and isinstance(x.ctx, ast.Load) and isinstance(x.value, ast.Name) and x.value.id == "self" and fn.name in ("is_empty", "__bool__", "__len__"))):
+                continue
+            par = getattr(x, "_parent", None)
+            truthy = (isinstance(par, (ast.If, ast.While, ast.IfExp)) and par.test is x) or (isinstance(par, ast.BoolOp)) or (isinstance(par, ast.UnaryOp) and isinstance(par.op, ast.Not))
+            if isinstance(par, (ast.Tuple, ast.List, ast.Set)):
+                gp = getattr(par, "_parent", None)
+                truthy = isinstance(gp, ast.Call) and isinstance(gp.func, ast.Name) and gp.func.id in ("any", "all")
+            if truthy:
+                n += 1
+                ctx.bad(finding_at(prop, rid, x, f"{qual_of(fn)}: `{ast.unparse(x)}` is tested by truthiness (`{ast.unparse(par)[:60]}`): the legal value 0 is treated as absent"))
+    if not n:
+        ctx.ok(rid, program.cls("nostr_relay.storage.base:NostrQuery").node, "no truthiness test of since/until/limit")
